@@ -57,6 +57,7 @@ int main(int argc, char** argv) {
             printf("L %u %u\n", tid, arg);
         }
         printf("N %u\n", n);
+        printf("X %u\n", (unsigned)m_decoyruns(&inst));
         /* spawns made by the module's own threads: (argument, returned id) pairs logged at 32768 */
         { U32 n2, q; memcpy(&n2, mem->data + 8, 4);
           for (q = 0; q < n2 && q < 3000; q++) { U32 a2; I32 r2; memcpy(&a2, mem->data + 32768 + q * 8, 4); memcpy(&r2, mem->data + 32772 + q * 8, 4); printf("S %u %d\n", a2, r2); } }
